@@ -31,6 +31,8 @@ CONSTANTS DevSets,   \* sets of deviations to explore: {{}} = intended design on
                      \*   dv: how the Encrypt dictionary spells entries that do not matter for this V/R:
                      \*   plain | len40 len64 nolen (a top-level /Length that only V 2/3 give a meaning to, or none)
                      \*   | alt (crypt filter named other than StdCF, /CF /Length in bits, /EncryptMetadata written out)
+                     \*   | big, huge (not about the dictionary: the document also carries strings and streams of 65535,
+                     \*     65536, 65537 (huge: and 150000) bytes)
                      \*   | below V 4: emfalse emtrue (an /EncryptMetadata entry, which R 2/3 give no meaning to),
                      \*     cfnoise (/CF /StmF /StrF present), len40 (V 1 with /Length 40 written out)
           PwPairs,   \* set of <<user password class, owner password class | "same">>
@@ -47,6 +49,8 @@ AllDev == {"AESKeepsPadding",            \* decrypt_aes128/256 return the PKCS#7
                                          \* whole entry instead of defaulting to 0 - it only feeds the per-object key
            "DecipherResultDropped",      \* getobj keeps the parsed object and drops what decipher_all RETURNS: an indirect
                                          \* object that is itself a string (immutable) keeps its ciphertext
+           "KeystreamStateLost",         \* RC4 applied block-wise (64 KiB) without carrying the cipher state from block to
+                                         \* block: data longer than 65536 bytes decrypts wrongly after the first block
            "EmFlagAllRevisions",         \* the ff ff ff ff of "EncryptMetadata false" enters the file key for every revision
            "NfcShortcut",                \* R6: SASLprep skips its NFKC step for a string that is NFC-normalised already
            "V4LengthFromDict",           \* V4: key length taken from the top-level /Length (meaningful only for V 2/3)
@@ -176,6 +180,8 @@ ItemsOf(c) ==
   {it \in Items :
      /\ it.loc = "objstm" => c.form \in {"xrefstm", "hybrid"}
      /\ it.loc = "xrefstm" => c.form \in {"xrefstm", "hybrid", "xrefstmw0", "xrefstm0w"}
+     /\ it.n \in {50, 51, 52} => c.dv \in {"big", "huge"}       \* the size dimension: data around and beyond 64 KiB
+     /\ (it.n = 52 \/ it.len = 150000) => c.dv = "huge"
      /\ c.form = "xrefstmw0" => it.g = 0          \* /W [1 2 0]: there is no generation field, every generation is 0
      /\ it.loc = "encdict" => c.encplace = "indirect"
      /\ (it.loc = "trailer" /\ it.type = "encrypt") => c.encplace = "direct"
@@ -295,13 +301,17 @@ CodeAlg(isStreamCall, ty) ==
   ELSE IF ~cfg.em /\ isStreamCall /\ ty = "Metadata" THEN "ID"     \* V4.decrypt: attrs is only passed for streams
   ELSE Alg(cfg)                                                    \* self.cfm[self.strf]
 
+LostBlame(a) == IF a = "RC4" /\ "KeystreamStateLost" \in Dev /\ item.len > 65536 /\ item.loc \in {"direct", "streamdata"}
+                THEN {"KeystreamStateLost"} ELSE {}
 Decrypt(v, n, g, isStreamCall, ty) ==
   LET a == CodeAlg(isStreamCall, ty)
       k == ObjKey(key, n, g, a)
   IN IF a = "ID" THEN v
      ELSE IF v.enc # <<>> /\ v.enc[Len(v.enc)].alg = a /\ v.enc[Len(v.enc)].key = k
      THEN [v EXCEPT !.enc = SubSeq(@, 1, Len(@) - 1),
-                    !.pad = @ \/ (IsAES(a) /\ "AESKeepsPadding" \in Dev)]
+                    !.pad = @ \/ (IsAES(a) /\ "AESKeepsPadding" \in Dev),
+                    \* the size dimension: RC4 is a stream cipher, its state runs through the whole datum whatever its length
+                    !.spur = IF LostBlame(a) # {} THEN @ + 1 ELSE @]
      ELSE [v EXCEPT !.spur = @ + 1]
 CallRec(n, g, isStreamCall, ty) ==
   [n |-> n, g |-> g, stream |-> isStreamCall, alg |-> CodeAlg(isStreamCall, ty),
@@ -347,7 +357,7 @@ ADecipherAll ==
         THEN /\ val' = IF dropped THEN val ELSE Decrypt(val, cur.n, cur.g, FALSE, "-")
              /\ calls' = Append(calls, CallRec(cur.n, cur.g, FALSE, "-"))
              /\ blame' = IF dropped /\ val.enc # <<>> THEN blame \cup {"DecipherResultDropped"}
-                         ELSE blame \cup PadBlame(CodeAlg(FALSE, "-"))
+                         ELSE blame \cup PadBlame(CodeAlg(FALSE, "-")) \cup LostBlame(CodeAlg(FALSE, "-"))
         ELSE /\ UNCHANGED <<val, calls>>
              /\ blame' = blame \cup (IF item.loc = "streamdict" /\ val.enc # <<>> THEN {"StreamDictNotDeciphered"} ELSE {})
   /\ cur' = cur
@@ -364,7 +374,7 @@ AStreamDecode ==
   /\ phase = "decode" /\ cur.hasdec /\ cur.sid # <<>>
   /\ val' = Decrypt(val, cur.sid[1], cur.sid[2], TRUE, cur.type)
   /\ calls' = Append(calls, CallRec(cur.sid[1], cur.sid[2], TRUE, cur.type))
-  /\ blame' = blame \cup (IF val.enc # <<>> THEN PadBlame(CodeAlg(TRUE, cur.type)) ELSE {})
+  /\ blame' = blame \cup (IF val.enc # <<>> THEN PadBlame(CodeAlg(TRUE, cur.type)) \cup LostBlame(CodeAlg(TRUE, cur.type)) ELSE {})
   /\ cur' = cur
   /\ Step("filters")
 
@@ -410,6 +420,7 @@ ItemExcuse ==
   \/ blame = {"StreamDictNotDeciphered"} /\ LayerCount(val) = 1 /\ val.spur = 0 /\ ~val.pad
   \/ blame = {"DecipherResultDropped"} /\ LayerCount(val) = 1 /\ val.spur = 0 /\ ~val.pad
   \/ blame = {"GenFromWholeEntry"} /\ val.spur > 0
+  \/ blame = {"KeystreamStateLost"} /\ val.spur > 0
 BlameSound == blame \subseteq Dev          \* in particular: the intended design (Dev = {}) needs no excuse at all
 
 \* every observed item of the original is plaintext: layer count 0, never +1 (left encrypted), never -1 (decrypted
